@@ -24,6 +24,32 @@ def jobs(ctx, props):
             if not quick:
                 reqs = 2 if len(desc['algs']) >= 4 and len(targets) == 2 else 3
             out.append((name, desc, targets, props, {'reqs': reqs}))
+    # shapes in which the level assigned by the first graph visit says nothing
+    # about ancestry (an ancestor can tie with its descendant), and in which
+    # the ancestry of a join must follow every parent's lineage to depth 3
+    A = aegen.alg
+    lop = [A('tr', 'r'), A('ta', 'a', inputs=[('tr', 'r', None, None)]), A('tb', 'b', inputs=[('tr', 'r', None, None)]),
+           A('tc', 'c', inputs=[('tb', 'b', None, None)]),
+           A('td', 'd', inputs=[('ta', 'a', None, None), ('tc', 'c', None, None)])]
+    deep = [A('ta1', 'a'), A('tb1', 'b', inputs=[('ta1', 'a', None, None)]), A('tc1', 'c', inputs=[('tb1', 'b', None, None)]),
+            A('ta2', 'a'), A('tb2', 'b', inputs=[('ta2', 'a', None, None)]), A('tc2', 'c', inputs=[('tb2', 'b', None, None)]),
+            A('td', 'd', inputs=[('tc1', 'c', None, None), ('tc2', 'c', None, None)])]
+    out.append(('lopsided-diamond', {'style': 'legacy', 'algs': lop}, ['A'], props,
+                {'reqs': 1 if quick else 2, 'outcomes': ('success', 'success-none-new')}))
+    # the mirror image (which branch is visited first depends on set order)
+    lop2 = [A('tr', 'r'), A('tb', 'b', inputs=[('tr', 'r', None, None)]), A('ta', 'a', inputs=[('tr', 'r', None, None)]),
+            A('tc', 'c', inputs=[('ta', 'a', None, None)]),
+            A('td', 'd', inputs=[('tb', 'b', None, None), ('tc', 'c', None, None)])]
+    out.append(('lopsided-diamond-mirrored', {'style': 'legacy', 'algs': lop2}, ['A'], props,
+                {'reqs': 1 if quick else 2, 'outcomes': ('success', 'success-none-new')}))
+    # ... and on the order in which the packages are met: the same two shapes
+    # with the declarations reversed
+    for nm, algs in (('lopsided-diamond', lop), ('lopsided-diamond-mirrored', lop2)):
+        out.append((nm + '/declared-in-reverse', {'style': 'legacy', 'algs': list(reversed(algs))}, ['A'], props,
+                    {'reqs': 1 if quick else 2, 'outcomes': ('success', 'success-none-new')}))
+    menu = [('ta1.a', ('A',)), ('ta2.a', ('A',)), ('td.d', ('A',)), ('tc1.c', ('A',))]
+    out.append(('deep-join', {'style': 'legacy', 'algs': deep}, ['A'], props,
+                {'reqs': 2, 'req_menu': menu, 'outcomes': ('success-none-new',)}))
     out += schedcheck.timer_jobs(props, quick)
     return out
 
